@@ -23,8 +23,8 @@ def dist(kind, iv_ns, steps, rates, rands=(), gaps=()):
 
 def corpus():
     return [
-        "distsum regular %d 6 24178880,24178880,100000001,100000001,24178881,50000000" % (900 * MS),   # C12l: tens of millions per interval still sum exactly
-        "distsum regular %d 4 768314072,768314072,99999999,123456789" % (3100 * MS),
+        "distsum regular %d 6 24178880,24178880,99999999,99999999,24178881,50000000" % (900 * MS),   # C12l: tens of millions per interval still sum exactly
+        "distsum regular %d 4 76831407,76831407,99999999,12345678" % (3100 * MS),
         dist("regular", 900 * MS, 18, [7, 3]),
         "pipeline %s 30 1 %s 40 staged" % (hx("1000/s"), hx("regular")),       # jitter is applied to the rate, the result is distributed — in every builder
         "pipeline %s 20 1 %s 40 constant" % (hx("100/s"), hx("regular")),
